@@ -9,11 +9,11 @@ HOOK_COMMITS = ["cbbf2a7", "00ee6c3", "aa3601d"]
 CHECKS = {
  "C04": dict(engine="QueryLifecycle", category="model_checking", design_ref="DESIGN.md §5 C04",
    technique="TLA+ model of Do (TLC exhaustive at bounded scripts) + deterministic gate-by-gate replay of TLC-generated and enumerated schedules on the real client, each recorded step validated by TLC (trace validation)",
-   text="TLC checks PacketBoundary / NoStaleOutput / CleanSuccess on every interleaving of sender, receiver and cancel-watch for the bounded script universe; the real client is then driven through model-generated schedules, exceptions before/after every client step, write breaks and server cuts at every byte offset, failing callbacks, and every recorded step must be a step of the specification with the observed wire tokens, closed flag and next-request bytes.",
+   text="TLC checks PacketBoundary / NoStaleOutput / CleanSuccess on every interleaving of sender, receiver and cancel-watch for the bounded script universe; the real client is then driven through model-generated schedules, exceptions before/after every client step, write breaks and server cuts at every byte offset, failing callbacks, and every recorded step must be a step of the specification with the observed wire tokens, closed flag and next-request bytes. In addition 160 (quick) / 1200 (thorough) free-running sessions of 2-4 requests on one client (results, exceptions, inserts, faults that close it, cancellation, a foreign Close, the same result columns bound again): TLC searches the model for every request's outcome and the packets it wrote (Outcome_QL.tla) and validates the chain of requests (Trace_SessionSeq.tla: a closed client stays closed and refuses without writing).",
    note="Trusted: TLC; the gate scheduler (verif hooks are the only interleaving points observed); the in-memory connection as a stand-in for TCP; ch-go's own decoders used to tokenise client output."),
  "C01": dict(engine="Wire", category="model_checking", design_ref="DESIGN.md §5 C01",
    technique="TLA+ functional specification of the native column/block format used as the independent reference decoder: TLC decodes the bytes the real encoders produced and compares with the logical contents and with what the real decoders returned (trace validation); design lemma (decoder inverts an independently written encoder, prefix-freeness) model-checked on a type universe to depth 3",
-   text="~170 (quick) / ~460 (thorough) column types - 29 base kinds under Array / Nullable / LowCardinality / Map / Tuple to depth 2 / 3 - with random and boundary values, 5-6 protocol revisions around the block-affecting features, default and purego builds, every encoding path (EncodeBlock into empty and pre-filled buffers, WriteBlock+Flush, encoding the same objects twice), typed decode into fresh and reused targets and inferred decode; boundary blocks (strings of 127..16385 bytes, dictionaries of 254..257 and 65534..65537 values). Every block is one trace line validated by TLC against Wire.tla.",
+   text="~190 (quick) / ~500 (thorough) column types - 32 base kinds (incl. the inferring enum column and JSON-as-string) under Array / Nullable / LowCardinality / Map / Tuple to depth 2 / 3 - with random and boundary values, 5-6 protocol revisions around the block-affecting features, default and purego builds, every encoding path (EncodeBlock into empty and pre-filled buffers, WriteBlock+Flush, encoding the same objects twice), typed decode into fresh and reused targets and inferred decode; boundary blocks (strings of 127..16385 bytes, dictionaries of 254..257 and 65534..65537 values). Every block is one trace line validated by TLC against Wire.tla.",
    note="Trusted: TLC; the harness' Go-value <-> raw-bytes conversion (encoding/binary); scalar values are opaque byte strings for the specification (their meaning is C20's subject); compositions the Go generics cannot express (Array(Tuple), LowCardinality(Nullable)) are not built."),
  "C02": dict(engine="Messages", category="model_checking", design_ref="DESIGN.md §5 C02",
    technique="the client's whole byte stream of a query parsed by TLC with the TLA+ field tables (Messages.tla: Query packet byte-exact) and the Wire.tla block decoder (Data packets, frames), recorded from real Dial+Do sessions (trace validation)",
@@ -30,14 +30,14 @@ CHECKS = {
  "C07": dict(engine="Wire", category="fault_enumeration", design_ref="DESIGN.md §5 C07",
    technique="prefix-freeness lemma of the TLA+ wire specification (TLC) + every proper prefix of every encoded block decoded by the library (typed, inferred, inside a compressed frame); accepted cuts are judged by the specification (trace validation)",
    text="For every block of C01's universe (depth 2 quick / 3 thorough, default and purego builds) every cut position 0..len-1 is decoded three ways (~3*10^5 prefix decodes quick); TLC requires every cut the library accepted to be one the format itself cannot distinguish, and evaluates the specification's own verdict at random cuts.",
-   note="Trusted: TLC; blocks above 20000 bytes are skipped, frames above 600 bytes are cut at 600 positions; protocol-message prefixes are covered by C17's check once registered."),
+   note="Trusted: TLC; blocks above 20000 bytes are cut at sampled positions only (their ends, around every MiB, a stride; one such block ends in a string beyond 1 MiB), frames above 600 bytes are cut at 600 positions; protocol-message prefixes are covered by C17's check once registered."),
  "C09": dict(engine="QueryLifecycle", category="model_checking", design_ref="DESIGN.md §5 C09",
    technique="TLA+ model of Do's send loop with input-contents versions (TLC exhaustive) + every bounded OnInput history executed on the real client with snapshots taken inside the callback, wire blocks matched to snapshots and validated by TLC (trace validation)",
-   text="Every OnInput history up to 2 (quick) / 3 (thorough) nil-returning calls followed by a terminal call, over keep/append/reset/reset+append/overwrite-in-place and nil/io.EOF/wrapped io.EOF/error, initial rows zero or not, with a zero-copy and a copying column, across compression modes; TLC validates that block k on the wire holds the contents of round k, exactly one terminator follows, leftover rows are sent, errors stop the stream.",
+   text="Every OnInput history up to 2 (quick) / 3 (thorough) nil-returning calls followed by a terminal call, over keep/append/reset/reset+append/overwrite-in-place and nil/io.EOF/wrapped io.EOF/error, initial rows zero or not, with a zero-copy and a copying column, across compression modes; TLC validates that block k on the wire holds the contents of round k, exactly one terminator follows, leftover rows are sent, errors stop the stream. Blocks of 12 000 incompressible rows (compressed frames beyond 64 KiB) are included, last before the terminator and mid-stream.",
    note="Trusted: TLC; blocks on the wire are decoded with ch-go's decoders and matched to harness snapshots by value."),
  "C10": dict(engine="QueryLifecycle", category="model_checking", design_ref="DESIGN.md §5 C10",
    technique="TLA+ model of Do with cancellation/deadline enabled in every state (TLC safety + liveness under fairness) + cancellation injected after every prefix of every recorded schedule on the real client, validated by TLC (trace validation)",
-   text="TLC checks CancelReturnsCtx, CancelCloses, CancelPacketOnce, NoOrphans and the liveness property Returns; on the real client a cancellation or deadline expiry is injected at every gate of every baseline run (and from inside callbacks); the bytes written by the cancel-watch, Close calls, errors.Is against the context's error and leftover library goroutines are validated against the specification. The wall-clock bound (read timeout + grace) is covered by the free-running runs of C12's driver, not by this gated replay.",
+   text="TLC checks CancelReturnsCtx, CancelCloses, CancelPacketOnce, NoOrphans and the liveness property Returns; on the real client a cancellation or deadline expiry is injected at every gate of every baseline run (and from inside callbacks); the bytes written by the cancel-watch, Close calls, errors.Is against the context's error and leftover library goroutines are validated against the specification. The wall-clock bound is checked on free-running runs: the server falls silent, the caller cancels 0.3 / 3 / 12 ms into the query, with and without a deadline an hour away on its context, and Do must return the context's error with the client closed within ReadTimeout (2 ms) + 4 s (Trace_Prompt.tla: the fairness assumption of the liveness proof as an obligation of the code).",
    note="Trusted: TLC; gate scheduler; cancellation inside a blocking conn.Read is represented by the gated in-memory connection."),
  "C11": dict(engine="Pool", category="model_checking", design_ref="DESIGN.md §5 C11",
    technique="TLA+ model of chpool over an abstract puddle (TLC exhaustive at 2-3 users) + operation histories (exhaustive to a bound, TLC-generated, random, with real short lifetimes) replayed on a real pool over in-memory connections, every recorded operation validated by TLC, which infers puddle's unobservable asynchronous steps (trace validation)",
@@ -69,7 +69,7 @@ CHECKS = {
    note="Trusted: TLC; the harness' rendering of ASTs to type names; malformed strings are checked for totality only."),
  "C20": dict(engine="Calendar", category="model_checking", design_ref="DESIGN.md §5 C20",
    technique="TLA+ definition of the proleptic Gregorian calendar, instants, civil times in fixed-offset zones, tick arithmetic and interval addition (lemmas checked by TLC over every day 1900..2299) + every conversion call of the library recorded as one trace line and judged by TLC against it (trace validation)",
-   text="TLC proves the calendar lemmas (day number <-> date inverse for all 146 097 days, consecutive days, instants <-> civil times in every zone, quarter = 3 months); on the library: ToDate/Date.Time for all 65 536 days and ToDate32/Date32.Time for all days 1900-01-01..2299-12-31 with a time of day and a zone -12h..+14h each (thorough: 8 variants per day), DateTime over boundary + 160 000 random seconds, DateTime64 at each precision 0..9 over range ends, epoch, 64-bit nanosecond ends and 14 000 random instants with boundary fractions, raw DateTime64 values to times, the four time columns with a location, Interval.Add for every scale, wide-integer constructors / column encodings and IPv4/IPv6 conversions (~850 000 lines quick, ~7 million thorough).",
+   text="TLC proves the calendar lemmas (day number <-> date inverse for all 146 097 days, consecutive days, instants <-> civil times in every zone, quarter = 3 months); on the library: ToDate/Date.Time for all 65 536 days and ToDate32/Date32.Time for all days 1900-01-01..2299-12-31 with a time of day and a zone -12h..+14h each (thorough: 8 variants per day), DateTime over boundary + 160 000 random seconds, DateTime64 at each precision 0..9 over range ends, epoch, 64-bit nanosecond ends and 14 000 random instants with boundary fractions, raw DateTime64 values to times, the four time columns with a location through Append, AppendArr and Array(T), Interval.Add for every scale, wide-integer constructors / column encodings and IPv4/IPv6 conversions (~850 000 lines quick, ~7 million thorough).",
    note="Trusted: TLC; Go's time package for building inputs from civil fields and reading the fields of results (recomputed independently by the specification); the harness' 64-bit floor division that splits values into [days, second, fraction]. DateTime's 2^32 seconds and IPv4's 2^32 values are sampled, not enumerated. Known finding F-17 (a quarter is added as four months) is listed in known_findings.txt."),
  "C08": dict(engine="Segmentation", category="model_checking", design_ref="DESIGN.md §5 C08",
    technique="TLA+ model of the receive side over a transport that delivers in arbitrary pieces (TLC exhaustive over all segmentations and time-out placements of bounded streams, safety + liveness, with a short-read variant for non-vacuity) + real Do runs over an in-memory connection fed piece by piece, every connection Read, callback and result validated by TLC as a behaviour of that model with the reader's unlogged progress inferred (trace validation)",
@@ -81,11 +81,11 @@ CHECKS = {
    note="Trusted: the Go race detector (reports races of observed executions only; schedules are whatever the Go scheduler produces under harness jitter, not enumerated); TLC; reports involving harness code make the check inconclusive."),
  "C06": dict(engine="Wire", category="fault_enumeration", design_ref="DESIGN.md §5 C06",
    technique="systematic mutation of valid encodings at every byte position (boundary bytes, 8- and 4-byte little-endian windows with 0 / +-1 / boundary / huge values, forged multi-byte varints, deletions, doublings, splices, bit flips, noise) decoded by the real library in a memory-limited, watchdog-supervised child process; every panic, abort, hang, inconsistent result, a sample of the accepted mutants and per-target counts are trace lines validated by TLC, which decodes the accepted mutants with the TLA+ wire specification (Wire.tla) and requires the library's values to be the specification's wherever it accepts the same bytes",
-   text="~270 targets (170 column types as 1- and 3-row blocks through typed targets with Row(i) for every row, a third of them also through inference + re-encoding, nine protocol messages at two revisions) x ~4 000 mutants each = 10^6 decodes (quick) / ~460 types, 3x the random classes (thorough): no panic, no hang (90 s watchdog), no abort under an 8 GiB address-space limit (confirmed alone under 40 GiB), row counts equal to the block's, every row readable; ~3 800 lines validated by TLC.",
+   text="~320 targets (180 column types incl. the inferring enum and JSON-as-string columns as 1- and 3-row blocks through typed targets with Row(i) for every row, a third of them also through inference + re-encoding, LowCardinality encodings with every key width, the non-generic LowCardinality target, nine protocol messages at two revisions) x ~4 000 mutants each = 10^6 decodes (quick) / ~460 types, 3x the random classes (thorough): no panic, no hang (90 s watchdog), no abort under an 8 GiB address-space limit (confirmed alone under 40 GiB), row counts equal to the block's, every row readable; ~3 800 lines validated by TLC.",
    note="Trusted: TLC; the harness' mutation engine and its walker of valid payloads (which skips the ~1.5% of mutants whose count fields read 4*10^6..10^8: the library's own caps admit them and it allocates gigabytes by design); RLIMIT_AS as the stand-in for a machine's memory; only a sample of accepted mutants is cross-decoded by the specification."),
  "C14": dict(engine="Writer", category="model_checking", design_ref="DESIGN.md §5 C14",
    technique="TLA+ model of the vectored writer with explicit backing arrays (TLC exhaustive) + every bounded operation sequence executed on the real proto.Writer and validated by TLC (trace validation)",
-   text="Exhaustive at the stated sequence length over a 12-operation alphabet, plus random long sequences; each Flush's delivered bytes are compared by TLC with the specification's pending contents.",
+   text="Exhaustive at the stated sequence length over a 12-operation alphabet, plus random long sequences; each Flush's delivered bytes are compared by TLC with the specification's pending contents; the failing writer's error class rotates (generic, expired deadline, short write, closed pipe).",
    note="Trusted: TLC; the recording io.Writer of the harness."),
 }
 
